@@ -36,3 +36,8 @@ EQUIVALENT = [
     ('parity != 0', A, "    return ind % 2 == 1", "    return ind % 2 != 0"),
     ('intersect arg order', A, "np.intersect1d(spike_ids, subset_spikes)", "np.intersect1d(subset_spikes, spike_ids)"),
 ]
+_LOOP = "        self.chunks_kept = []\n        n_chunks = len(chunk_bounds) - 1\n\n        for i in range(0, n_chunks, max(1, int(ceil(n_chunks / n_chunks_kept)))):\n            self.chunks_kept.extend(chunk_bounds[i:i + 2])\n        self.chunks_kept = np.array(self.chunks_kept)\n"
+_VEC = "        bounds = np.asarray(chunk_bounds)\n        n_chunks = len(bounds) - 1\n        step = max(1, int(ceil(n_chunks / n_chunks_kept)))\n        starts = np.arange(0, %s, step)\n        self.chunks_kept = np.column_stack((bounds[starts], bounds[starts + 1])).ravel()\n"
+EQUIVALENT.append(('kept chunks by fancy indexing with np.arange(0, n_chunks, step)', A, _LOOP, _VEC % 'n_chunks'))
+BREAKING.append(('kept chunks by fancy indexing, stop one short', A, _LOOP, _VEC % 'n_chunks - 1', ['C17.S1']))
+BREAKING.append(('kept chunks by fancy indexing, stop at the number of bounds', A, _LOOP, _VEC % 'len(bounds)', ['C17.S1']))
